@@ -49,6 +49,13 @@ type WEv struct {
 	Over int    `json:"over"`
 	Lab  bool   `json:"lab"`
 	Bm   int    `json:"bm"`
+	// contents of the resource the event carries (two incarnations of one ID can reach the same version)
+	Spec  int    `json:"spec"`
+	Owner string `json:"owner"`
+	Phase string `json:"phase"`
+	Fins  string `json:"fins"`
+	Labs  string `json:"labs"`
+	Ospec int    `json:"ospec"`
 }
 
 // countingServer counts (and, in legacy mode, refuses) the teardown RPCs.
@@ -187,10 +194,19 @@ func (c *collector) add(ev state.Event) {
 		w.ID = ev.Resource.Metadata().ID()
 		w.Ver = vh.VersionInt(ev.Resource.Metadata().Version())
 		_, w.Lab = ev.Resource.Metadata().Labels().Get("l")
+
+		// (a tombstone - the initial Destroyed event of a watch on an absent resource - has no contents)
+		if (ev.Type == state.Created || ev.Type == state.Updated || ev.Type == state.Destroyed) && w.Ver > 0 {
+			md := ev.Resource.Metadata()
+			w.Spec, w.Owner, w.Phase = vh.SpecOf(ev.Resource), md.Owner(), md.Phase().String()
+			w.Fins = fmt.Sprint([]string(*md.Finalizers()))
+			w.Labs = fmt.Sprint(md.Labels().Raw())
+		}
 	}
 
 	if ev.Old != nil {
 		w.Over = vh.VersionInt(ev.Old.Metadata().Version())
+		w.Ospec = vh.SpecOf(ev.Old)
 	}
 
 	c.evs = append(c.evs, w)
@@ -275,6 +291,59 @@ func startWatches(ctx context.Context, t testing.TB, st state.State) map[string]
 	return res
 }
 
+// startLateWatches: kind watches (single and aggregated) over the tail of the retained history.
+func startLateWatches(ctx context.Context, t testing.TB, st state.State) map[string]*collector {
+	res := map[string]*collector{}
+
+	for _, typ := range []string{vh.IntType, vh.StrType} {
+		kind := resource.NewMetadata("n1", typ, "", resource.VersionUndefined)
+
+		agg := &collector{}
+		aggCh := make(chan []state.Event)
+
+		if err := st.WatchKindAggregated(ctx, kind, aggCh, state.WithKindTailEvents(60)); err != nil {
+			t.Fatal(err)
+		}
+
+		res["late-agg-tail-"+typ] = agg
+
+		go func() {
+			for {
+				select {
+				case <-ctx.Done():
+					return
+				case evs := <-aggCh:
+					for _, ev := range evs {
+						agg.add(ev)
+					}
+				}
+			}
+		}()
+
+		one := &collector{}
+		ch := make(chan state.Event)
+
+		if err := st.WatchKind(ctx, kind, ch, state.WithKindTailEvents(60)); err != nil {
+			t.Fatal(err)
+		}
+
+		res["late-kind-tail-"+typ] = one
+
+		go func() {
+			for {
+				select {
+				case <-ctx.Done():
+					return
+				case ev := <-ch:
+					one.add(ev)
+				}
+			}
+		}()
+	}
+
+	return res
+}
+
 func runBehaviour(t *testing.T, tr *vh.Trace, tid string, beh []vh.Req, legacy bool) {
 	ctx, cancel := context.WithCancel(context.Background())
 	defer cancel()
@@ -307,6 +376,17 @@ func runBehaviour(t *testing.T, tr *vh.Trace, tid string, beh []vh.Req, legacy b
 
 		tr.Emit(map[string]any{"ev": "pair", "tid": tid, "req": rq, "d": d, "r": r})
 	}
+
+	// late subscribers: the whole retained history of both kinds as ONE tail (aggregated: one batch), on both sides
+	for name, c := range startLateWatches(ctx, t, direct) {
+		dw[name] = c
+	}
+
+	for name, c := range startLateWatches(ctx, t, remote) {
+		rw[name] = c
+	}
+
+	time.Sleep(50 * time.Millisecond)
 
 	// wait until the remote watch streams caught up with the direct ones
 	deadline := time.Now().Add(5 * time.Second)
